@@ -371,10 +371,28 @@ var funcSpecs = []funcSpec{
 			{"validate", fnOf(pairOf(tText, tErr), tText)}},
 		extFns: map[string]param{"validateYAML": {"validate", fnOf(pairOf(tText, tErr), tText)}}},
 	{pkg: "snaps", name: "trackSkip", sig: "t:testingT->", out: "IO", fx: "st"},
+	// the exported entry points (after every flow they delegate to)
+
 	{pkg: "snaps", name: "matchStandaloneJSON", sig: "c:*Config,t:testingT,input:any,matchers:...match.JSONMatcher->", out: "IO", fx: "st",
 		extra: []param{{"trimpath", tBool}, {"caller", tText}, {"runMatcher", fnOf(pairOf(tText, tMErrs), tMatch, tText)},
 			{"validate", fnOf(pairOf(tText, tErr), tText)}, {"takeJSON", fnOf(tText, tCfg, tText)}},
 		extFns: map[string]param{"validateJSON": {"validate", fnOf(pairOf(tText, tErr), tText)}, "takeJSONSnapshot": {"takeJSON", fnOf(tText, tCfg, tText)}}},
+	{pkg: "snaps", name: "Config.MatchSnapshot", sig: "t:testingT,values:...any->", out: "IO", fx: "st", recv: "c:cfg", extra: []param{{"trimpath", tBool}, {"caller", tText}}},
+	{pkg: "snaps", name: "MatchSnapshot", sig: "t:testingT,values:...any->", out: "IO", fx: "st", extra: []param{{"trimpath", tBool}, {"caller", tText}}},
+	{pkg: "snaps", name: "Config.MatchStandaloneSnapshot", sig: "t:testingT,input:any->", out: "IO", fx: "st", recv: "c:cfg", extra: []param{{"trimpath", tBool}, {"caller", tText}}},
+	{pkg: "snaps", name: "MatchStandaloneSnapshot", sig: "t:testingT,input:any->", out: "IO", fx: "st", extra: []param{{"trimpath", tBool}, {"caller", tText}}},
+	{pkg: "snaps", name: "Config.MatchJSON", sig: "t:testingT,input:any,matchers:...match.JSONMatcher->", out: "IO", fx: "st", recv: "c:cfg", extra: []param{{"trimpath", tBool}, {"caller", tText}, {"runMatcher", fnOf(pairOf(tText, tMErrs), tMatch, tText)},
+		{"validate", fnOf(pairOf(tText, tErr), tText)}, {"takeJSON", fnOf(tText, tCfg, tText)}}},
+	{pkg: "snaps", name: "MatchJSON", sig: "t:testingT,input:any,matchers:...match.JSONMatcher->", out: "IO", fx: "st", extra: []param{{"trimpath", tBool}, {"caller", tText}, {"runMatcher", fnOf(pairOf(tText, tMErrs), tMatch, tText)},
+		{"validate", fnOf(pairOf(tText, tErr), tText)}, {"takeJSON", fnOf(tText, tCfg, tText)}}},
+	{pkg: "snaps", name: "Config.MatchYAML", sig: "t:testingT,input:any,matchers:...match.YAMLMatcher->", out: "IO", fx: "st", recv: "c:cfg", extra: []param{{"trimpath", tBool}, {"caller", tText}, {"runMatcher", fnOf(pairOf(tText, tMErrs), tMatch, tText)},
+		{"validate", fnOf(pairOf(tText, tErr), tText)}}},
+	{pkg: "snaps", name: "MatchYAML", sig: "t:testingT,input:any,matchers:...match.YAMLMatcher->", out: "IO", fx: "st", extra: []param{{"trimpath", tBool}, {"caller", tText}, {"runMatcher", fnOf(pairOf(tText, tMErrs), tMatch, tText)},
+		{"validate", fnOf(pairOf(tText, tErr), tText)}}},
+	{pkg: "snaps", name: "Config.MatchStandaloneJSON", sig: "t:testingT,input:any,matchers:...match.JSONMatcher->", out: "IO", fx: "st", recv: "c:cfg", extra: []param{{"trimpath", tBool}, {"caller", tText}, {"runMatcher", fnOf(pairOf(tText, tMErrs), tMatch, tText)},
+		{"validate", fnOf(pairOf(tText, tErr), tText)}, {"takeJSON", fnOf(tText, tCfg, tText)}}},
+	{pkg: "snaps", name: "MatchStandaloneJSON", sig: "t:testingT,input:any,matchers:...match.JSONMatcher->", out: "IO", fx: "st", extra: []param{{"trimpath", tBool}, {"caller", tText}, {"runMatcher", fnOf(pairOf(tText, tMErrs), tMatch, tText)},
+		{"validate", fnOf(pairOf(tText, tErr), tText)}, {"takeJSON", fnOf(tText, tCfg, tText)}}},
 }
 
 // ---------------------------------------------------------------------------------------------
@@ -1359,7 +1377,11 @@ func (t *ftr) assign(b *strings.Builder, ind string, s *ast.AssignStmt) {
 	if sel, ok := s.Lhs[0].(*ast.SelectorExpr); ok && s.Tok == token.ASSIGN && len(s.Lhs) == 1 {
 		if id, ok := sel.X.(*ast.Ident); ok && t.lookup(id.Name) != nil {
 			switch t.lookup(id.Name).k {
-			case "anym", "typem", "custm":
+			case "anym", "typem", "custm", "cfg":
+				if t.lookup(id.Name).k == "cfg" && t.sp.recv != "" && strings.HasPrefix(t.sp.recv, id.Name+":") {
+					t.stmtFail(b, ind, "assignment through the *Config receiver %s", id.Name)
+					return
+				}
 				cur := t.expr(sel)
 				if t.err != nil {
 					b.WriteString(ind + "sorry\n")
@@ -2087,12 +2109,12 @@ func translateFunc(pkg *pkgInfo, sp *funcSpec, consts map[string]bool, funcs map
 	if sp.recv != "" {
 		// the receiver is the first, in-out parameter
 		parts := strings.SplitN(sp.recv, ":", 2)
-		rt := map[string]*ty{"registry": tReg, "sregistry": tSReg, "anym": tAnyM, "typem": tTypeM, "custm": tCustM}[parts[1]]
+		rt := map[string]*ty{"registry": tReg, "sregistry": tSReg, "anym": tAnyM, "typem": tTypeM, "custm": tCustM, "cfg": tCfg}[parts[1]]
 		if rt == nil || len(fd.Recv.List) != 1 || len(fd.Recv.List[0].Names) != 1 || fd.Recv.List[0].Names[0].Name != parts[0] {
 			ffail("funcs: %s: receiver does not match %s", sp.name, sp.recv)
 		}
 		_, isPtr := fd.Recv.List[0].Type.(*ast.StarExpr)
-		isMatcher := rt.k == "anym" || rt.k == "typem" || rt.k == "custm"
+		isMatcher := rt.k == "anym" || rt.k == "typem" || rt.k == "custm" || rt.k == "cfg"
 		// does the method assign a field of its receiver?
 		mutates := false
 		ast.Inspect(fd.Body, func(n ast.Node) bool {
@@ -2110,7 +2132,7 @@ func translateFunc(pkg *pkgInfo, sp *funcSpec, consts map[string]bool, funcs map
 		if !isPtr && (!isMatcher || mutates) {
 			ffail("funcs: %s: value receiver (the method cannot change its receiver)", sp.name)
 		}
-		if isMatcher && !pkg.structIs(map[string]string{"anym": "anyMatcher", "typem": "typeMatcher", "custm": "customMatcher"}[rt.k],
+		if isMatcher && rt.k != "cfg" && !pkg.structIs(map[string]string{"anym": "anyMatcher", "typem": "typeMatcher", "custm": "customMatcher"}[rt.k],
 			map[string]string{"anym": "paths:[],placeholder:any,errOnMissingPath:bool,name:string",
 				"typem": "paths:[],errOnMissingPath:bool,name:string,expectedType:any",
 				"custm": "callback:,errOnMissingPath:bool,name:string,path:string"}[rt.k]) {
@@ -2208,6 +2230,12 @@ func translateFunc(pkg *pkgInfo, sp *funcSpec, consts map[string]bool, funcs map
 				for _, l := range s.Lhs {
 					if id, ok := l.(*ast.Ident); ok {
 						t.muts[id.Name] = true
+					}
+					// x.f = v on a struct value: the variable is rebuilt
+					if sel, ok := l.(*ast.SelectorExpr); ok {
+						if id, ok := sel.X.(*ast.Ident); ok {
+							t.muts[id.Name] = true
+						}
 					}
 				}
 			} else {
